@@ -14,7 +14,7 @@ Definition runs (s : state) (l : list op) : state := fold_left (fun s o => fst (
 (* the abstract specification: the entry of the last accepted update of key k *)
 Definition acc_upd (k : N) (cur : option entry) (x : op * obs) : option entry :=
   match x with
-  | (Put k' e _ _, OPut true _) => if (k =? k')%N then Some e else cur
+  | (Put k' e _ _ _, OPut true _) => if (k =? k')%N then Some e else cur
   | _ => cur
   end.
 Definition last_accepted (k : N) (cur : option entry) (t : list (op * obs)) : option entry :=
@@ -49,7 +49,7 @@ Lemma step_lookup s o k :
   alookup k (entries (fst (step s o))) =
   acc_upd k (alookup k (entries s)) (o, snd (step s o)).
 Proof.
-  destruct o as [n|k' e valid tie|k'| |h]; cbn; try reflexivity.
+  destruct o as [n|k' e exp valid tie|k'| |h|k']; cbn; try reflexivity.
   destruct valid; cbn; [|reflexivity].
   destruct (alookup k' (entries s)) as [old|] eqn:L.
   - destruct (supersedes old e tie); cbn; [|reflexivity].
@@ -82,8 +82,8 @@ Lemma get_returns_last_accepted l k :
 Proof. cbn; now rewrite read_last_accepted. Qed.
 
 (* acceptance: only if valid and (new key with room, or supersedes); effect exact *)
-Lemma put_accept_only_if s k e valid tie s' r :
-  step s (Put k e valid tie) = (s', OPut true r) ->
+Lemma put_accept_only_if s k e exp valid tie s' r :
+  step s (Put k e exp valid tie) = (s', OPut true r) ->
   valid = true /\ r = Some e /\
   (  (alookup k (entries s) = None /\ (count s < limit s)%N)
   \/ (exists old, alookup k (entries s) = Some old /\ supersedes old e tie = true)) /\
@@ -108,10 +108,10 @@ Proof.
 Qed.
 
 (* and conversely every valid superseding / fitting update is accepted *)
-Lemma put_accept_if s k e tie :
+Lemma put_accept_if s k e exp tie :
   (  (alookup k (entries s) = None /\ (count s < limit s)%N)
   \/ (exists old, alookup k (entries s) = Some old /\ supersedes old e tie = true)) ->
-  snd (step s (Put k e true tie)) = OPut true (Some e).
+  snd (step s (Put k e exp true tie)) = OPut true (Some e).
 Proof.
   cbn; intros [[L C]|[old [L S]]]; rewrite L.
   - apply N.leb_gt in C; now rewrite C.
@@ -120,8 +120,8 @@ Qed.
 
 (* rejection: nothing changes; the stored entry is handed back for a valid entry that
    does not supersede it *)
-Lemma put_reject_unchanged s k e valid tie s' r :
-  step s (Put k e valid tie) = (s', OPut false r) ->
+Lemma put_reject_unchanged s k e exp valid tie s' r :
+  step s (Put k e exp valid tie) = (s', OPut false r) ->
   s' = s /\
   (valid = true -> forall old, alookup k (entries s) = Some old -> r = Some old).
 Proof.
@@ -140,11 +140,11 @@ Definition MetricInv (s : state) : Prop := metric s = Z.of_N (count s).
 
 Lemma step_metric s o : MetricInv s -> MetricInv (fst (step s o)).
 Proof.
-  unfold MetricInv; destruct o as [n|k e valid tie|k| |h]; cbn; try (intros H; exact H).
+  unfold MetricInv; destruct o as [n|k e exp valid tie|k| |h|k]; cbn; try (intros H; exact H).
   destruct valid; cbn; [|intros H; exact H].
   destruct (alookup k (entries s)) as [old|] eqn:L.
   - destruct (supersedes old e tie); cbn; [|intros H; exact H].
-    unfold count; cbn. rewrite length_aset, L; intros H; exact H.
+    unfold count; cbn. rewrite length_aset, L; intros H; rewrite H; lia.
   - destruct (limit s <=? count s)%N; cbn; [intros H; exact H|].
     unfold count; cbn. rewrite length_aset, L; intros H; rewrite H. lia.
 Qed.
@@ -167,7 +167,7 @@ Definition lowers (s : state) (o : op) : bool :=
 
 Lemma step_cap s o : lowers s o = false -> CapInv s -> CapInv (fst (step s o)).
 Proof.
-  unfold CapInv; destruct o as [n|k e valid tie|k| |h]; cbn; try (intros _ H; exact H).
+  unfold CapInv; destruct o as [n|k e exp valid tie|k| |h|k]; cbn; try (intros _ H; exact H).
   - intros Hl _. apply N.ltb_ge in Hl. exact Hl.
   - intros _; destruct valid; cbn; [|intros H; exact H].
     destruct (alookup k (entries s)) as [old|] eqn:L.
@@ -198,7 +198,7 @@ Proof. intros H; apply cap_inv_from; [exact H|]. unfold CapInv; cbn; lia. Qed.
 Lemma insert_respects_limit s o :
   (count s < count (fst (step s o)))%N -> (count s < limit s)%N.
 Proof.
-  destruct o as [n|k e valid tie|k| |h]; cbn; try lia; [unfold count; cbn; lia|].
+  destruct o as [n|k e exp valid tie|k| |h|k]; cbn; try lia; try (unfold count; cbn; lia).
   destruct valid; cbn; [|lia].
   destruct (alookup k (entries s)) as [old|] eqn:L.
   - destruct (supersedes old e tie); cbn; [|lia].
@@ -210,26 +210,151 @@ Qed.
 (* the literal bound fails once the operator lowers the limit: no eviction exists *)
 Definition e1 : entry := {| rev := 1; ety := 1; vid := 1 |}.
 Definition cap_witness : list op :=
-  [SetLimit 2; Put 1 e1 true false; Put 2 e1 true false; SetLimit 1].
+  [SetLimit 2; Put 1 e1 100 true false; Put 2 e1 100 true false; SetLimit 1].
 
 Lemma cap_inv_refuted : exists l, ~ CapInv (runs init l).
 Proof. exists cap_witness; unfold CapInv; vm_compute; intros H; now apply H. Qed.
 
-(* Chain progress is invisible to the registry: dropping every [Tip] from a history changes
-   neither the final state nor any other observation. *)
+(* Chain progress is invisible to the registry.  The tip is part of the state (Model.v) and no
+   operation reads it: two states that differ only in the tip make the same observations and
+   stay that way, so dropping every [Tip] from a history changes no other observation and
+   nothing of the final state but the tip itself. *)
 Definition is_tip (o : op) : bool := match o with Tip _ => true | _ => false end.
 
-Lemma runs_without_tips s l : runs s (filter (fun o => negb (is_tip o)) l) = runs s l.
+Definition eq_but_tip (a b : state) : Prop :=
+  entries a = entries b /\ exps a = exps b /\ limit a = limit b /\ metric a = metric b.
+
+Lemma eq_but_tip_refl a : eq_but_tip a a.
+Proof. repeat split. Qed.
+
+Lemma step_eq_but_tip a b o :
+  eq_but_tip a b ->
+  eq_but_tip (fst (step a o)) (fst (step b o)) /\ snd (step a o) = snd (step b o).
 Proof.
-  revert s; induction l as [|o t IH]; intros s; [reflexivity|].
-  destruct o as [n|k e valid tie|k| |h]; cbn [filter is_tip negb]; unfold runs in *; cbn [fold_left]; try apply IH.
+  intros (He & Hx & Hl & Hm).
+  destruct o as [n|k e exp valid tie|k| |h|k]; cbn;
+    try (unfold count; rewrite ?He, ?Hx, ?Hl, ?Hm; repeat split; assumption).
+  destruct valid; cbn; [|repeat split; assumption].
+  unfold count; rewrite He, Hl.
+  destruct (alookup k (entries b)) as [old|].
+  - destruct (supersedes old e tie); cbn; [|repeat split; assumption].
+    unfold eq_but_tip, write; cbn. rewrite He, Hx, Hl, Hm. repeat split.
+  - destruct (limit b <=? N.of_nat (length (entries b)))%N; cbn; [repeat split; assumption|].
+    unfold eq_but_tip, write; cbn. rewrite He, Hx, Hl, Hm. repeat split.
 Qed.
 
-Lemma trace_without_tips s l :
-  trace s (filter (fun o => negb (is_tip o)) l) = filter (fun x => negb (is_tip (fst x))) (trace s l).
+Lemma tip_eq_but_tip a b h : eq_but_tip a b -> eq_but_tip (fst (step a (Tip h))) b.
+Proof. intros (He & Hx & Hl & Hm); repeat split; assumption. Qed.
+
+Lemma without_tips_from a b l :
+  eq_but_tip a b ->
+  eq_but_tip (runs a (filter (fun o => negb (is_tip o)) l)) (runs b l) /\
+  trace a (filter (fun o => negb (is_tip o)) l) = filter (fun x => negb (is_tip (fst x))) (trace b l).
+Proof.
+  revert a b; induction l as [|o t IH]; intros a b E; [split; [exact E|reflexivity]|].
+  destruct (is_tip o) eqn:T.
+  - destruct o; try discriminate. cbn [filter is_tip negb trace step fst].
+    change (runs b (Tip h :: t)) with (runs (fst (step b (Tip h))) t).
+    cbn [filter fst is_tip negb].
+    apply IH. destruct E as (He & Hx & Hl & Hm); repeat split; assumption.
+  - assert (F : filter (fun o => negb (is_tip o)) (o :: t) = o :: filter (fun o => negb (is_tip o)) t)
+      by (cbn [filter]; now rewrite T).
+    rewrite F.
+    change (runs a (o :: filter (fun o => negb (is_tip o)) t))
+      with (runs (fst (step a o)) (filter (fun o => negb (is_tip o)) t)).
+    change (runs b (o :: t)) with (runs (fst (step b o)) t).
+    destruct (step_eq_but_tip a b o E) as [E' Ho].
+    destruct (IH _ _ E') as [R Tq]. split; [exact R|].
+    cbn [trace]. destruct (step a o) as [a' ma]; destruct (step b o) as [b' mb]; cbn [fst snd] in *.
+    cbn [filter fst]. rewrite T; cbn [negb]. now rewrite Ho, Tq.
+Qed.
+
+Lemma without_tips l :
+  eq_but_tip (runs init (filter (fun o => negb (is_tip o)) l)) (runs init l) /\
+  trace init (filter (fun o => negb (is_tip o)) l) = filter (fun x => negb (is_tip (fst x))) (trace init l).
+Proof. apply without_tips_from, eq_but_tip_refl. Qed.
+
+(* The expiration height stored for a key is the one passed with its last accepted update. *)
+Definition acc_exp (k : N) (cur : option N) (x : op * obs) : option N :=
+  match x with
+  | (Put k' _ exp _ _, OPut true _) => if (k =? k')%N then Some exp else cur
+  | _ => cur
+  end.
+Definition last_accepted_exp (k : N) (cur : option N) (t : list (op * obs)) : option N :=
+  fold_left (acc_exp k) t cur.
+
+Lemma step_lookup_exp s o k :
+  alookup k (exps (fst (step s o))) = acc_exp k (alookup k (exps s)) (o, snd (step s o)).
+Proof.
+  destruct o as [n|k' e exp valid tie|k'| |h|k']; cbn; try reflexivity.
+  destruct valid; cbn; [|reflexivity].
+  destruct (alookup k' (entries s)) as [old|] eqn:L.
+  - destruct (supersedes old e tie); cbn; [|reflexivity].
+    destruct (k =? k')%N eqn:E.
+    + apply N.eqb_eq in E; subst; apply alookup_aset_same.
+    + apply alookup_aset_other; intros ->; now rewrite N.eqb_refl in E.
+  - destruct (limit s <=? count s)%N; cbn; [reflexivity|].
+    destruct (k =? k')%N eqn:E.
+    + apply N.eqb_eq in E; subst; apply alookup_aset_same.
+    + apply alookup_aset_other; intros ->; now rewrite N.eqb_refl in E.
+Qed.
+
+Lemma exp_last_accepted_from s l k :
+  alookup k (exps (runs s l)) = last_accepted_exp k (alookup k (exps s)) (trace s l).
 Proof.
   revert s; induction l as [|o t IH]; intros s; [reflexivity|].
-  destruct o as [n|k e valid tie|k| |h]; cbn [filter is_tip negb trace].
-  all: try (destruct (step s _) as [s' m] eqn:E; cbn [filter fst is_tip negb]; rewrite IH; reflexivity).
-  cbn [step]. cbn [filter fst is_tip negb]. apply IH.
+  change (runs s (o :: t)) with (runs (fst (step s o)) t).
+  pose proof (step_lookup_exp s o k) as H.
+  cbn [trace]. destruct (step s o) as [s' m]; cbn [fst snd] in *.
+  rewrite IH, H. reflexivity.
 Qed.
+
+Lemma exp_last_accepted l k :
+  snd (step (runs init l) (Exp k)) = OExp (last_accepted_exp k None (trace init l)).
+Proof. cbn; now rewrite (exp_last_accepted_from init l k). Qed.
+
+(* Keys and expiration heights go together: a key has an entry iff it has an expiration height. *)
+Definition ExpInv (s : state) : Prop :=
+  forall k, alookup k (entries s) = None <-> alookup k (exps s) = None.
+
+Lemma step_exp_inv s o : ExpInv s -> ExpInv (fst (step s o)).
+Proof.
+  intros I; destruct o as [n|k' e exp valid tie|k'| |h|k']; cbn; try exact I.
+  destruct valid; cbn; [|exact I].
+  assert (W : forall dm, ExpInv (write s k' e exp dm)).
+  { intros dm k; unfold write; cbn.
+    destruct (N.eq_dec k k') as [->|Hne].
+    - rewrite !alookup_aset_same; split; discriminate.
+    - rewrite !alookup_aset_other by exact Hne. apply I. }
+  destruct (alookup k' (entries s)) as [old|].
+  - destruct (supersedes old e tie); cbn; [apply W|exact I].
+  - destruct (limit s <=? count s)%N; cbn; [exact I|apply W].
+Qed.
+
+Lemma exp_inv l : ExpInv (runs init l).
+Proof.
+  assert (G : forall s, ExpInv s -> ExpInv (runs s l)).
+  { induction l as [|o t IH]; intros s H; cbn; [exact H|]. apply IH, step_exp_inv, H. }
+  apply G. intros k; cbn; split; reflexivity.
+Qed.
+
+(* An entry whose expiration height lies below the tip is still returned and still counted:
+   the instance of the statements above that the brief asks for. *)
+Definition expired (s : state) (k : N) : Prop :=
+  exists h, alookup k (exps s) = Some h /\ (h < tip s)%N.
+
+Lemma expired_entry_is_served l k :
+  expired (runs init l) k ->
+  exists e, snd (step (runs init l) (Get k)) = OGet (Some e) /\
+            last_accepted k None (trace init l) = Some e.
+Proof.
+  intros (h & Hh & _).
+  destruct (alookup k (entries (runs init l))) as [e|] eqn:L.
+  - exists e; split; [cbn; now rewrite L|]. now rewrite <- read_last_accepted.
+  - apply (exp_inv l k) in L. rewrite L in Hh; discriminate.
+Qed.
+
+Lemma expired_witness :
+  expired (runs init [SetLimit 1; Put 1 e1 100 true false; Tip 200]) 1 /\
+  snd (step (runs init [SetLimit 1; Put 1 e1 100 true false; Tip 200]) Info) = OInfo 1 1 1.
+Proof. split; [exists 100%N; vm_compute; split; reflexivity|vm_compute; reflexivity]. Qed.
